@@ -49,6 +49,9 @@ pub enum Cause {
     PeerDisconnect,
     /// the peer acknowledges everything outstanding and closes in the same breath (woken senders run after the teardown began)
     AckThenClose,
+    /// servers: the handshake imposed a keep-alive of 1 s and the peer goes silent (real time: the case waits 2.7 s);
+    /// not part of `causes()`: enumerated separately, after the last step of every scenario
+    KeepAlive,
 }
 
 #[derive(Clone, Copy, Debug, PartialEq, Eq, Hash, Serialize, Deserialize)]
@@ -130,7 +133,7 @@ fn class_of(s: &StopKind) -> Class {
 fn expected(cause: Cause, role: Role) -> Class {
     match cause {
         Cause::PeerClose | Cause::ReadError | Cause::WriteError | Cause::AppClose(_) | Cause::AckThenClose => Class::Gone,
-        Cause::Garbage | Cause::Oversize | Cause::WrongAck | Cause::PubRelUnknown | Cause::UnknownAlias | Cause::DupId | Cause::Unexpected => Class::Protocol,
+        Cause::Garbage | Cause::Oversize | Cause::WrongAck | Cause::PubRelUnknown | Cause::UnknownAlias | Cause::DupId | Cause::Unexpected | Cause::KeepAlive => Class::Protocol,
         Cause::HandlerErr | Cause::HandlerErrLate | Cause::CtlErr | Cause::BackpressureErr => Class::Error,
         Cause::PeerDisconnect => {
             if role == Role::V3Client {
@@ -264,6 +267,15 @@ async fn inject(c: &Case, w: &mut World) -> bool {
             }
             bytes = Some(w.eut.encode(&P5::Disconnect(s5::Disc5::default()), &[]));
         }
+        Cause::KeepAlive => {
+            // nothing arrives any more: the 1 s keep-alive of the handshake (1 s timer wheel) has expired well before 2.7 s
+            // (behind a stalled peer the dispatcher sits in its back-pressure state and runs no keep-alive timer: as for
+            // the other causes, nothing is demanded then)
+            if w.stalled {
+                must_end = false;
+            }
+            ntex::time::sleep(ntex::time::Millis(2700)).await;
+        }
     }
     if let Some(b) = bytes {
         // bytes that land inside an inbound payload still owed are payload, not a packet; behind a stalled peer the dispatcher
@@ -311,6 +323,12 @@ async fn run_with(c: Case, limit: u16, steps: Vec<Op>, write_hw: usize) -> Resul
             // the publish handler proper (with take_payload) serves routed topics on client roles
             cfg.v3.router = true;
             cfg.v5.router = true;
+        }
+        if c.cause == Cause::KeepAlive {
+            cfg.v3.connect.keep_alive = 10;
+            cfg.v5.connect.keep_alive = 10;
+            cfg.v3.hs = crate::bed::v3::Hs3::Accept { idle_timeout: Some(1), max_send: None, session_present: false };
+            cfg.v5.hs = crate::bed::v5::Hs5::Accept { keep_alive: Some(1), max_send: None };
         }
     })
     .await
@@ -583,6 +601,14 @@ pub fn all_cases(thorough: bool) -> Vec<Case> {
                         }
                     }
                 }
+                // keep-alive expiry (real time) after the last step of the scenario, server roles
+                if role.is_server() && usize::from(cut) == steps.len() {
+                    out.push(Case { role, scenario: sc, cut, byte: None, cause: Cause::KeepAlive, hold_stop: false, stop_fail: false });
+                    if thorough {
+                        out.push(Case { role, scenario: sc, cut, byte: None, cause: Cause::KeepAlive, hold_stop: true, stop_fail: false });
+                        out.push(Case { role, scenario: sc, cut, byte: None, cause: Cause::KeepAlive, hold_stop: false, stop_fail: true });
+                    }
+                }
                 // fault inside the inbound packet of this step, at every byte offset
                 if let Some(Op::Inbound(_)) = steps.get(usize::from(cut)) {
                     let max = if thorough || sc <= 2 || sc == 7 { 40 } else { 0 };
@@ -645,7 +671,7 @@ pub fn run(ctx: &Ctx, started: Instant) -> i32 {
         rule: format!(
             "grid of {total} cases: base scenarios {names:?} x every step index (cause injected after 0..n steps) x causes {{peer close, read error, write error, malformed Remaining Length, frame above the inbound maximum, unsolicited PUBACK, packet type the role never receives, \
              failing publish handler (at once, or after having been suspended while older handlers still run), control service failing on a back-pressure notification, application close / force_close (v5 also close_with_reason / close_with_no_reason), peer DISCONNECT; v5: unknown topic alias; v3 server: PUBREL with unknown id, duplicate QoS 1 id; \
-             servers: failing protocol handler}} x Stop notification handled at once / held open / answered with an error x four roles; for peer close and read error additionally every byte offset 1..39 inside the inbound packet being delivered (quick: scenarios 0-2 and 7; thorough: all). \
+             servers: failing protocol handler; servers, after the last step of each scenario, in real time: keep-alive expiry (handshake keep-alive 1 s, silent peer)}} x Stop notification handled at once / held open / answered with an error x four roles; for peer close and read error additionally every byte offset 1..39 inside the inbound packet being delivered (quick: scenarios 0-2 and 7; thorough: all). \
              Oracle: exactly one Stop of the class the cause demands (protocol / application error / peer gone; a cause that cannot take effect because its bytes land in an owed payload or nothing is written falls back to a peer close), no control call after it, every owned \
              send/ready/release/chunk future resolved, no clean end of an incomplete payload, every handler finished or dropped and none dropped before the held Stop was handled, connection task finished, no panic. \
              In addition proptest-generated base histories of 2..17 sink / inbound operations (the operation set of C08 without closes) on send windows 1..3, ended by a generated cause, under the same oracle. \
